@@ -176,6 +176,7 @@ def _body(fname, args, kw, target):
         raise e
     if 'exc' in step:
         e = EXC[step['exc']]('boom')
+        e.payload = [1]
         ent['exc'] = e
         raise e
     if step.get('fault') in ('copy', 'unser'):
@@ -343,7 +344,11 @@ def _perform(target, step, obs):
         if obs is not None:
             obs.append(['ret', mkval(step['v'])])
     elif do == 'mut':
-        if obs:
+        if obs and obs[-1][0] == 'exc':
+            RT.tls.last_exc.MUT = 1
+            if hasattr(RT.tls.last_exc, 'payload'):
+                RT.tls.last_exc.payload.append('MUT')
+        elif obs:
             mutate(obs[-1][1])
     elif do == 'raise':
         RT.last_end = EXC[step['exc']]('mid')
@@ -386,10 +391,22 @@ def _perform(target, step, obs):
         raise ValueError(do)
 
 
-def mutate(v):
-    """In-place mutation of the first mutable node of v (what service code may do to a value it received)."""
+def mutate(v, every=False):
+    """In-place mutation of the first (or every) mutable node of v (what service code may do to a value it received)."""
     from mc.refeq import mutable_nodes
+    done = False
     for n in mutable_nodes(v):
+        if every:
+            _mut1(n)
+            done = True
+            continue
+        _mut1(n)
+        return True
+    return done
+
+
+def _mut1(n):
+    for n in [n]:
         if isinstance(n, list):
             n.append('MUT')
         elif isinstance(n, dict):
@@ -398,8 +415,6 @@ def mutate(v):
             n.add('MUT')
         else:
             n.MUT = 1
-        return True
-    return False
 
 
 def _call(target, step, obs):
@@ -428,7 +443,8 @@ def _call(target, step, obs):
         if step.get('nocatch'):
             raise
         if obs is not None:
-            obs.append(['exc', type(e).__name__])
+            obs.append(['exc', type(e).__name__ + ('+MUTATED' if getattr(e, 'MUT', None) else '')])
+            RT.tls.last_exc = e
     except BaseException as e:
         rec['exc'] = e
         raise
